@@ -276,6 +276,19 @@ func (p *DepPPPriority) Priority()  {}
 
 type Describer interface{ Describe() string }
 
+// DepPoints returns what a DepPP's own by-type points hold.
+func DepPoints(p any) (IA, []IB) {
+	switch x := p.(type) {
+	case *DepPPUnordered:
+		return x.Dep, x.All
+	case *DepPPOrdered:
+		return x.Dep, x.All
+	case *DepPPPriority:
+		return x.Dep, x.All
+	}
+	return nil, nil
+}
+
 func NewDepPP(class int, name string, ord int) any {
 	c := depCore{Nm: name, Ord: ord}
 	switch class {
